@@ -165,8 +165,8 @@ func decodeVariablesMetadata(source io.Reader, version primitive.ProtocolVersion
 			}
 		}
 	}
-	if columnCount > 0 {
-		globalTableSpec := flags.Contains(primitive.VariablesFlagGlobalTablesSpec)
+	globalTableSpec := flags.Contains(primitive.VariablesFlagGlobalTablesSpec)
+	if columnCount > 0 || (globalTableSpec && columnCount == 0) {
 		if metadata.Columns, err = decodeColumnsMetadata(globalTableSpec, columnCount, source, version); err != nil {
 			return nil, fmt.Errorf("cannot read RESULT Prepared variables metadata column cols: %w", err)
 		}
